@@ -52,18 +52,28 @@ def behave(name, n_before, args, kwargs):
 
 
 class Rec:
-    """A plain mounted object: public and private methods, non-callable members."""
+    """A recorded object: public and private methods, non-callable members, and public
+    attributes that are themselves objects with public callables (``child``, two to three
+    levels deep, and ``buddy``) or a bound method of another object (``helper``).  Only the
+    objects put into the mount table are mounted; everything below them is reachable by
+    attribute chains only and must never be invoked."""
 
     attr = 5
     _hidden = 6
 
-    def __init__(self, mount, log):
-        self._mount = mount
+    def __init__(self, label, log, depth=2, buddy=True):
+        self._label = label
         self._log = log
+        self.items = [1, 2]
+        if depth:
+            self.child = Rec(label + "/child", log, depth - 1, buddy=depth > 1)
+        if buddy:
+            self.buddy = Rec(label + "/buddy", log, 0, buddy=False)
+            self.helper = self.buddy.pub  # a public callable attribute: bound method of another object
 
     def _do(self, name, a, k):
         n = len(self._log)
-        self._log.append((self._mount, name))
+        self._log.append(("m", self._label, name))
         return behave(name, n, a, k)
 
     def pub(*a, **k):
@@ -97,15 +107,20 @@ class Rec:
 class Plain:
     value = 7
 
+    def __init__(self, label, log):
+        self.child = Rec(label + "/child", log, 1)
+
 
 def mk_callable(mount, log):
     name = mount.rsplit(".", 1)[-1]
 
     def recorded(*a, **k):
         n = len(log)
-        log.append((mount, None))
+        log.append(("f", mount))
         return behave(name, n, a, k)
 
+    recorded._rec_key = ("f", mount)
+    recorded.child = Rec(mount + "/child", log, 1)  # functions can carry public attributes too
     return recorded
 
 
@@ -121,8 +136,46 @@ TABLE_SPECS = [
 def build_table(idx, log):
     out = {}
     for mount, kind in TABLE_SPECS[idx].items():
-        out[mount] = Rec(mount, log) if kind == "rec" else Plain() if kind == "plain" else mk_callable(mount, log)
+        out[mount] = (Rec(mount, log) if kind == "rec" else Plain(mount, log) if kind == "plain"
+                      else mk_callable(mount, log))
     return out
+
+
+def callable_key(v):
+    """Identity of a recorded callable, as it appears in the raw invocation log."""
+    key = getattr(v, "_rec_key", None)
+    if key:
+        return key
+    owner = getattr(v, "__self__", None)
+    if isinstance(owner, Rec):
+        return ("m", owner._label, v.__name__)
+    return None
+
+
+def entry_map(tbl):
+    """raw key -> (mount, attr): exactly the callables that are a mounted object itself or a
+    public attribute of a literally mounted object."""
+    out = {}
+    for mount, obj in tbl.items():
+        key = callable_key(obj) if callable(obj) else None
+        if key:
+            out.setdefault(key, (mount, None))
+        for a in dir(obj):
+            if a.startswith("_"):
+                continue
+            v = getattr(obj, a, None)
+            key = callable_key(v) if callable(v) else None
+            if key:
+                out.setdefault(key, (mount, a))
+    return out
+
+
+def finish_log(tbl, raw):
+    """Translate the raw log of EVERY recorded object reachable from the table into
+    (mount, attr) entries; an invocation of anything that is not directly a public attribute of
+    a literally mounted name becomes ("?<label>", name), which no mount table contains."""
+    emap = entry_map(tbl)
+    return [emap[k] if k in emap else ("?" + k[1], k[2] if len(k) > 2 else None) for k in raw]
 
 
 def g_table(idx):
@@ -142,7 +195,7 @@ def g_table(idx):
 
 def is_public_entry(tbl, entry):
     mount, attr = entry
-    if mount not in tbl:
+    if mount not in tbl:  # includes the "?<label>" entries of objects that are not mounted
         return False
     if attr is None:
         return callable(tbl[mount])
@@ -155,17 +208,18 @@ def is_public_entry(tbl, entry):
 
 def run_impl(jsonrpc, table_idx, data):
     """-> (outcome, log); outcome = ("nothing",) | ("bytes", b) | ("escaped", kind, text)."""
-    log = []
-    w = jsonrpc.Wrapper(objects=build_table(table_idx, log))
+    raw = []
+    tbl = build_table(table_idx, raw)
+    w = jsonrpc.Wrapper(objects=tbl)
     try:
         out = w.handle_json(data)
     except Exception as exc:  # noqa: BLE001
         name = type(exc).__name__
         kind = {"ValidationError": "EValidation", "PydanticSerializationError": "ESerialization"}.get(name, "EOther")
-        return ("escaped", kind, f"{name}: {str(exc)[:200]}"), log
+        return ("escaped", kind, f"{name}: {str(exc)[:200]}"), finish_log(tbl, raw)
     if out is None:
-        return ("nothing",), log
-    return ("bytes", bytes(out) if not isinstance(out, str) else out.encode()), log
+        return ("nothing",), finish_log(tbl, raw)
+    return ("bytes", bytes(out) if not isinstance(out, str) else out.encode()), finish_log(tbl, raw)
 
 
 def parse_oracle(data):
@@ -310,10 +364,12 @@ def expected_code(tbl_spec, method):
     if kind == "rec":
         if name in ("pub", "count", "nargs", "te", "te_bad", "oth", "oth_bad", "uns"):
             return behaviour(name)
-        return -32602 if name == "attr" else -32601
+        if name == "helper":  # public callable attribute (a bound method of another object)
+            return "result"
+        return -32602 if name in ("attr", "items", "child", "buddy") else -32601  # public, not callable
     if kind == "plain":
-        return -32602 if name == "value" else -32601
-    return -32601  # a function object has no public attributes
+        return -32602 if name in ("value", "child") else -32601
+    return -32602 if name == "child" else -32601  # the recorded functions carry one public attribute
 
 
 def same_id(a, b):
@@ -441,7 +497,7 @@ def monitors(chk, tbl_idx, data, parsed_ok, parsed, outcome, log, case):
 # ----------------------------------------------------------------------------
 # generators
 
-SEGMENTS = ["o", "core", "x", "f", "a", "b", "g", "te", "uns", "_p", "n", "pub", "count", "nargs", "te_bad",
+SEGMENTS = ["child", "buddy", "helper", "items", "o", "core", "x", "f", "a", "b", "g", "te", "uns", "_p", "n", "pub", "count", "nargs", "te_bad",
             "oth", "oth_bad", "_priv", "__class__", "attr", "_hidden", "nope", "", "__call__", "__init__",
             "pub ", "Pub", "value", "describe", "get_version", "playback", "tracklist", "_do", "_log", "é", "\U0001F600"]
 GOOD_PATHS = ["o.pub", "o.count", "o.nargs", "o.te", "o.oth", "o.uns", "o.te_bad", "o.oth_bad", "core.x.pub",
@@ -450,8 +506,29 @@ GOOD_PATHS = ["o.pub", "o.count", "o.nargs", "o.te", "o.oth", "o.uns", "o.te_bad
               "o.pub.__call__", "f.__call__", "o.__init__", "o._do", "x.pub", "core.x._priv"]
 
 
+# attribute chains of 3-5 segments that look valid at every level: each middle segment is a real
+# public attribute (an object with public callables, a bound method, a list, an int) of the
+# object before it, the first part is a real mount.  None of them may invoke anything.
+DEEP_PATHS = [
+    "o.child.pub", "o.child.count", "o.child.child.pub", "o.child.child.nargs", "o.buddy.pub", "o.buddy.count",
+    "o.child.helper", "o.child.buddy.count", "o.child.child.te", "core.x.child.pub", "core.x.child.child.count",
+    "core.x.buddy.te", "core.x.child.buddy.pub", "f.child.pub", "f.child.child.pub", "a.b.child.count", "g.count.child.pub",
+    "n.child.pub", "n.child.child.uns", "_p.child.pub", "o.items.clear", "o.items.copy", "o.items.pop", "o.attr.bit_length",
+    "o.attr.real", "o.child.items.copy", "o.child.attr.bit_length", "core.x.child.child.items.copy",
+    "core.playback.child.pub", "core.tracklist.child.child.count", "core.get_version.child.pub", "core.playback.buddy.pub",
+    "core.child.pub", "core.buddy.count", "o.pub.x.child.pub", "o.pub.x.child.child.pub", "o.count.child.pub", "core.pub.child.pub",
+    "o.helper.__self__.pub", "o.child._priv", "o.pub.__self__.child.pub", "o.child.child.child.pub", "o.helper.__call__",
+]
+DIRECT_PATHS = ["o.helper", "core.x.helper", "core.playback.helper", "core.helper", "o.child", "o.buddy", "o.items", "f.child",
+                "n.child", "core.playback.child"]
+
+
 def gen_path(rng):
-    k = rng.weighted([("good", 6), ("segments", 3), ("deeper", 1)])
+    k = rng.weighted([("good", 6), ("segments", 3), ("deeper", 1), ("deep_chain", 4), ("direct", 1)])
+    if k == "deep_chain":
+        return rng.choice(DEEP_PATHS)
+    if k == "direct":
+        return rng.choice(DIRECT_PATHS)
     if k == "good":
         return rng.choice(GOOD_PATHS)
     if k == "deeper":
@@ -701,9 +778,10 @@ def wrapper_stage(chk, jsonrpc):
 
 
 def run_http(handlers, jsonrpc, tbl_idx, body):
-    log = []
+    raw = []
+    tbl = build_table(tbl_idx, raw)
     h = handlers.JsonRpcHandler.__new__(handlers.JsonRpcHandler)
-    h.jsonrpc = jsonrpc.Wrapper(objects=build_table(tbl_idx, log))
+    h.jsonrpc = jsonrpc.Wrapper(objects=tbl)
     h.csrf_protection = False
     h.allowed_origins = set()
     h.request = SimpleNamespace(body=body, headers={}, remote_ip="test")
@@ -713,19 +791,20 @@ def run_http(handlers, jsonrpc, tbl_idx, body):
     h.set_header = lambda *_a, **_k: None
     h.set_status = lambda *_a, **_k: None
     h.post()
-    return out["written"], out["error"] is not None, log
+    return out["written"], out["error"] is not None, finish_log(tbl, raw)
 
 
 def run_ws(handlers, jsonrpc, tbl_idx, message):
-    log = []
+    raw = []
+    tbl = build_table(tbl_idx, raw)
     h = handlers.WebSocketHandler.__new__(handlers.WebSocketHandler)
-    h.jsonrpc = jsonrpc.Wrapper(objects=build_table(tbl_idx, log))
+    h.jsonrpc = jsonrpc.Wrapper(objects=tbl)
     h.request = SimpleNamespace(remote_ip="test")
     out = {"written": [], "closed": False}
     h.write_message = lambda m, **_k: out["written"].append(m) or True
     h.close = lambda *_a, **_k: out.__setitem__("closed", True)
     h.on_message(message)
-    return out["written"], out["closed"], log
+    return out["written"], out["closed"], finish_log(tbl, raw)
 
 
 def handler_stage(chk, jsonrpc):
